@@ -1,2 +1,98 @@
+(* C57 — ANSI-C unquoting inverts git's path quoting.
+   undo  = Model.undo  (gix_quote::ansi_c::undo, slice-level model with Panic / fuel)
+   quote = Spec.quote  (git's quote_c_style_counted; fully = core.quotePath)
+   All statements quantify over every byte string (NUL bytes and bytes >= 0x80 included), both
+   core.quotePath modes, and every trailing text. *)
+From Coq Require Import Lia.
 From GixV.Base Require Import Bytes Outcome.
-From GixV.C57 Require Import Model Spec.
+From GixV.C57 Require Import Tables Model Spec Proofs.
+
+(* the property, first half: a name git had to quote comes back exactly, as a new string, and the
+   reported length is exactly the length of the quoted form — whatever follows it *)
+Theorem undo_inverts_git_quote : forall fully s rest,
+  needs_quote fully s = true ->
+  undo (quote fully s ++ rest) = Ok (Owned, s, length (quote fully s)).
+Proof. exact undo_quote_quoted. Qed.
+
+(* second half: a name git prints as is comes back unchanged (borrowed), all input consumed.
+   (For the empty name the text behind it must not itself start with a double quote.) *)
+Theorem undo_leaves_unquoted_name : forall fully s rest,
+  needs_quote fully s = false ->
+  s <> [] \/ starts_with_dquote rest = false ->
+  undo (quote fully s ++ rest) = Ok (Borrowed, s ++ rest, length (s ++ rest)).
+Proof. exact undo_quote_unquoted. Qed.
+
+(* any input that does not start with a double quote is returned unchanged *)
+Theorem undo_identity_without_quote : forall input,
+  starts_with_dquote input = false -> undo input = Ok (Borrowed, input, length input).
+Proof. exact undo_identity. Qed.
+
+(* no input makes undo panic (slice indexing, expect, unreachable! are all modelled), and the loop
+   always finishes within input-length + 1 iterations *)
+Theorem undo_never_panics_never_hangs : forall input,
+  undo input <> Panic /\ undo input <> OutOfFuel.
+Proof. exact undo_graceful. Qed.
+
+(* whatever is accepted: consumed bytes lie within the input (the usize counter cannot overflow) and
+   the decoded string is not longer than what was consumed *)
+Theorem undo_consumed_within_input : forall input k out n,
+  undo input = Ok (k, out, n) -> n <= length input /\ length out <= n.
+Proof. exact undo_bounds. Qed.
+
+(* the result depends only on the consumed prefix *)
+Theorem undo_depends_only_on_consumed_prefix : forall input out n,
+  undo input = Ok (Owned, out, n) -> undo (firstn n input) = Ok (Owned, out, n).
+Proof. exact undo_prefix. Qed.
+
+(* git's quoting is injective: two names never share a quoted form *)
+Theorem git_quote_injective : forall fully s1 s2, quote fully s1 = quote fully s2 -> s1 = s2.
+Proof. exact quote_injective. Qed.
+
+(* the loop of the slice-level model is the byte-by-byte decoder, for every input and accumulator *)
+Theorem undo_loop_refines_tidy : forall fuel input out consumed,
+  length input < fuel -> undo_loop fuel input out consumed = tidy input out consumed.
+Proof. exact undo_loop_tidy. Qed.
+
+(* ---- non-vacuity ------------------------------------------------------------------------------ *)
+
+(* a name with LF, a Latin-1 byte, a double quote, a backslash, 0x01 followed by a digit *)
+Example ex_name : bytes := [x61; x0a; xe4; x22; x5c; x01; x37].
+
+Example ex_needs_quote : needs_quote true ex_name = true /\ needs_quote false ex_name = true.
+Proof. split; vm_compute; reflexivity. Qed.
+
+Example ex_quote_fully : quote true ex_name = bs """a\n\344\""\\\0017""".
+Proof. vm_compute. reflexivity. Qed.
+
+Example ex_quote_not_fully : quote false ex_name = [x22; x61; x5c; x6e; xe4; x5c; x22; x5c; x5c; x5c; x30; x30; x31; x37; x22].
+Proof. vm_compute. reflexivity. Qed.
+
+Example ex_undo_quoted : undo (quote true ex_name ++ bs "7"" tail") = Ok (Owned, ex_name, 18).
+Proof. vm_compute. reflexivity. Qed.
+
+Example ex_unquoted_name : needs_quote true (bs "dir/plain name.txt") = false
+  /\ bs "dir/plain name.txt" <> []
+  /\ undo (quote true (bs "dir/plain name.txt") ++ bs """x") = Ok (Borrowed, bs "dir/plain name.txt""x", 20).
+Proof. split; [|split]; [vm_compute; reflexivity | discriminate | vm_compute; reflexivity]. Qed.
+
+(* bytes >= 0x80 are not quoted with core.quotePath=false *)
+Example ex_unquoted_high : needs_quote false [xc3; xa4] = false /\ needs_quote true [xc3; xa4] = true.
+Proof. split; vm_compute; reflexivity. Qed.
+
+Example ex_no_leading_quote : starts_with_dquote (bs "a""b""") = false.
+Proof. reflexivity. Qed.
+
+Example ex_accepted_prefix : undo (bs """a\n\101""tail") = Ok (Owned, [x61; x0a; x41], 9).
+Proof. vm_compute. reflexivity. Qed.
+
+Example ex_errors :
+  undo (bs """") = Err EQuotes /\ undo (bs """a\") = Err EEnd /\ undo (bs """\x""") = Err (EEscape x78)
+  /\ undo (bs """\12") = Err EOctalEnd /\ undo (bs """\128""") = Err EOctal
+  /\ undo (bs """abc") = Ok (Owned, bs "abc", 4).
+Proof. repeat split; vm_compute; reflexivity. Qed.
+
+Example ex_injective_premise : quote true ex_name = quote true ex_name.
+Proof. reflexivity. Qed.
+
+Example ex_refines_premise : length ex_name < undo_fuel ex_name.
+Proof. unfold undo_fuel. lia. Qed.
